@@ -550,9 +550,23 @@ func replay(path string) {
 		Violations []struct {
 			Input replayInput `json:"input"`
 		} `json:"violations"`
+		Obligations []struct {
+			Detail string `json:"detail"`
+		} `json:"theorem_or_stream"`
 	}
 	if err := json.Unmarshal(b, &rp); err != nil {
 		fatal(err)
+	}
+	// a broken-correspondence replay carries its inputs inside the recorded disagreements
+	for _, o := range rp.Obligations {
+		var d struct {
+			Input replayInput `json:"input"`
+		}
+		if json.Unmarshal([]byte(o.Detail), &d) == nil && d.Input.Source != "" {
+			rp.Violations = append(rp.Violations, struct {
+				Input replayInput `json:"input"`
+			}{d.Input})
+		}
 	}
 	for _, v := range rp.Violations {
 		if strings.HasPrefix(v.Input.Source, compInputsPrefix) {
